@@ -103,8 +103,15 @@ Definition chk_glob (c : list N * list N * bool) : bool :=
 Definition chk_glob_inbox (c : list N * bool) : bool :=
   Bool.eqb (model_match_ci (fst c) INBOX) (snd c).
 (* exhaustive sweep: one query against many names, expected = the list of matches *)
-Definition chk_glob_many (c : list N * list (list N) * list bool) : bool :=
-  let '(q, ns, bs) := c in eqb_list Bool.eqb (map (model_match q) ns) bs.
+Definition chk_glob_many (ns : list (list N)) (c : list N * list bool) : bool :=
+  let '(q, bs) := c in eqb_list Bool.eqb (map (model_match q) ns) bs.
+
+(* attribute lists, named to keep generated case files small *)
+Definition A3 : list N := [3]%N.
+Definition A2 : list N := [2]%N.
+Definition A12 : list N := [1; 2]%N.
+Definition A13 : list N := [1; 3]%N.
+Definition A1 : list N := [1]%N.
 
 (* ListTree alone: names -> sorted (name, attrs) of list(); get; get_renames *)
 Definition chk_tree_list (c : list name * list (name * list N)) : bool :=
